@@ -20,7 +20,7 @@ PROP = "C01"
 MANIFEST = dict(
     level="exploration", design_ref="DESIGN.md 8 (C01), 7 (Surface), 10",
     technique="TLA+ environment grammar of the public API (TLC simulation generates call histories with boundary arguments) executed on the real library under run-time monitors; TLC trace validation of every callback record against P_C01; the modelled panic/hang sources are model-checked in Arena/Mixer/StaticSound",
-    text="TLC generates configurations and call histories over a boundary alphabet for every builder and handle call the harness interprets (static and streaming sounds, tracks with each of the eight effects, send and spatial tracks, listeners, clocks, tweener and LFO modulators, modulator links, every handle command, drops, sample-rate changes) interleaved with callbacks of 0-64 frames, plus three directed products (every effect - including delays with an effect in their feedback loop - x level x buffer size x device-rate change; every handle command x argument level x tween length on an object with audio running; every channel count x volume x panning of a loud sound); each callback's panic flag, allocation counters, sample scan, extra-channel scan, mono/stereo comparison and watchdog result is validated by TLC. 'Every finite argument' is reached only through this alphabet; NaN propagation inside DSP recursions is observed, not modelled.",
+    text="TLC generates configurations and call histories over a boundary alphabet for every builder and handle call the harness interprets (static and streaming sounds, tracks with each of the eight effects, send and spatial tracks, listeners, clocks, tweener and LFO modulators, modulator links, every handle command, drops, sample-rate changes) interleaved with callbacks of 0-64 frames, plus three directed products (every effect - including delays with an effect in their feedback loop - x level x buffer size x device-rate change; every handle command x argument level x tween length on an object with audio running; every channel count x volume x panning of a loud sound); each callback's panic flag, allocation counters, sample scan, extra-channel scan, mono/stereo comparison and watchdog result is validated by TLC. 'Every finite argument' is reached only through this alphabet; NaN propagation inside DSP recursions is observed, not modelled. Directed grids add every effect on a plain track under a spatial parent, and start times delayed by Duration::MAX.",
     note="Exploration level: the input space is sampled by TLC simulation, not exhausted. Allocation counting uses a counting global allocator armed only on the thread and for the duration of the callback (probe bookkeeping excluded). The mono/extra-channel check compares against a stereo shadow session and is skipped when a streaming sound's free-running decoder makes output timing-dependent. Panics in gameplay-side calls are recorded but not judged (the property is about the callback).")
 
 
